@@ -231,6 +231,21 @@ def run_case(ctx, case):
     L.expect(A, B, True, "after a deep copy was re-wrapped", None)
     L.expect(opsA[-1], opsB[-1], True, "operation after a deep copy was re-wrapped", None)
     ctx.count("deepcopy_rewrap_checks")
+    # copies made by the standard protocols (copy.deepcopy, pickle) have the same content
+    import pickle
+    Li = Laws(ctx, "instance")
+    window = JobShopInstance(list(A.jobs[1:]) or list(A.jobs), name="window", set_operation_attributes=False)
+    for nm, orig in (("instance", A), ("window over the jobs of another instance, attributes kept", window)):
+        for how, clone in (("deepcopy", copy.deepcopy(orig)), ("pickle", pickle.loads(pickle.dumps(orig)))):
+            Li.expect(orig, clone, True, f"{how} of an {nm}", None)
+            for job_a, job_b in zip(orig.jobs, clone.jobs):
+                for op_a, op_b in zip(job_a, job_b):
+                    if not (op_a == op_b) or hash(op_a) != hash(op_b):
+                        ctx.violation("c15_operation_of_a_copy_differs",
+                                      {"how": how, "of": nm, "original": repr(op_a), "copy": repr(op_b),
+                                       "ids": [(op_a.job_id, op_a.position_in_job, op_a.operation_id),
+                                               (op_b.job_id, op_b.position_in_job, op_b.operation_id)]})
+    ctx.count("standard_protocol_copies_of_instances")
 
     # ---------------------------------------------------------------- scheduled ops / schedules
     run = Run(inst)
@@ -274,7 +289,18 @@ def run_case(ctx, case):
         SD = Schedule(B, lists)
         L.expect(SA, SD, False, "one start time differs", None)
     except Exception:
-        pass
+        SD = None
+    for nm, S0 in (("dispatcher-built schedule", SA), ("schedule with a delayed operation", SD)):
+        if S0 is None:
+            continue
+        for how, clone in (("deepcopy", copy.deepcopy(S0)), ("pickle", pickle.loads(pickle.dumps(S0)))):
+            L.expect(S0, clone, True, f"{how} of a {nm}", None)
+            if schedule_key(clone) != schedule_key(S0):
+                ctx.violation("c15_copy_of_a_schedule_has_other_content",
+                              {"how": how, "of": nm, "original": schedule_key(S0), "copy": schedule_key(clone)})
+    if SD is not None:
+        L.expect(copy.deepcopy(SD), SA, False, "copy of the delayed schedule vs the undelayed one", None)
+    ctx.count("standard_protocol_copies_of_schedules")
     partial = build_schedule(inst, B, hist[:-1])
     L.expect(SA, partial, False, "one operation missing", None)
 
